@@ -514,8 +514,9 @@ OnFinalizeEnd(e, lineNo) ==
                  ("file:" \o p) \in Keys(st) /\ st.nodes["file:" \o p].detached
                  /\ ~usedByActive(p) /\ p \notin FilesOf(after)}}
         \cup {<<"empty_directory_left", d>> : d \in {d \in {after.dirs[i] : i \in DOMAIN after.dirs} :
-                 (\E p \in DOMAIN aux.produced : IsPrefixDir(d, p))
-                 /\ ~\E q \in FilesOf(after) : IsPrefixDir(d, q)}}
+                 /\ (\E p \in DOMAIN aux.produced : IsPrefixDir(d, p))
+                 /\ ~(\E q \in FilesOf(after) : IsPrefixDir(d, q))
+                 /\ ~(\E j \in DOMAIN after.dirs : IsPrefixDir(d, after.dirs[j]))}}
       c11 == IF ~allowed THEN {} ELSE
         {<<"unneeded_optional_step_not_reverted", s>> : s \in {s \in Steps(st) : ~st.nodes[s].detached
                  /\ ~NeededStep(st, aux.mem, s) /\ st.nodes[s].sstate # "PENDING"}}
